@@ -83,6 +83,8 @@ def c08(replay_case=None):
 
         return props_glr.run("C08", select=lambda c: True, clause_ok=lambda cl, c: cl.startswith("C08:"), nontrivial=lambda c: True,
                              rule="replay", assumptions=[], replay_case=replay_case)
+    if replay_case is None:
+        stage_glr.ensure(tier(), seed())     # built before the LR stage is loaded (memory, see stage.ensure)
     return run(
         "C08",
         select=lambda c: c["lr"]["kind"] == "tree" or c["glr"]["kind"] == "forest",
